@@ -205,11 +205,27 @@ class Observer:
     # ------------------------------------------------------------------ interposition
     @contextmanager
     def interposed(self):
-        missing = [n for n in INTERPOSED if not hasattr(M, n)]
+        import importlib
+
+        # every interposed routine is wrapped where it is defined AND where lbfgsb.main holds an alias of it, so
+        # that `from x import f` and `x.f(...)` call styles are both observed
+        homes = {"line_search": "lbfgsb.linesearch", "update_lbfgs_matrices": "lbfgsb.bfgsmats",
+                 "make_X_and_G_respect_strong_wolfe": "lbfgsb.bfgsmats", "get_cauchy_point": "lbfgsb.cauchy",
+                 "subspace_minimization": "lbfgsb.subspacemin"}
+
+        def sites(name):
+            out = []
+            for mod in (M, importlib.import_module(homes[name])):
+                if hasattr(mod, name) and mod not in out:
+                    out.append(mod)
+            return out
+
+        missing = [n for n in INTERPOSED if not sites(n)]
         if missing or not hasattr(SFM, "approx_derivative"):
-            raise Machinery(f"interposition target missing in lbfgsb.main: {missing}")
+            raise Machinery(f"interposition target missing: {missing}")
         with _patch_lock:
-            saved = {n: getattr(M, n) for n in INTERPOSED}
+            saved = {n: getattr(sites(n)[-1], n) for n in INTERPOSED}
+            saved_sites = {n: [(mod, getattr(mod, n)) for mod in sites(n)] for n in INTERPOSED + KERNELS if sites(n)}
             saved_ad = SFM.approx_derivative
             obs = self
 
@@ -290,7 +306,7 @@ class Observer:
                        _stencil=list(obs.stencil_pts))
                 return g
 
-            saved_k = {n: getattr(M, n) for n in KERNELS if hasattr(M, n)}
+            saved_k = {n: getattr(sites(n)[-1], n) for n in KERNELS if sites(n)}
 
             def get_cauchy_point(x, grad, lb, ub, mats, *a, **k):
                 from harness.memcheck import dense_from_mats
@@ -356,19 +372,19 @@ class Observer:
                            judged=False, nfree=-1, _skip=repr(ex))
                 return xbar
 
-            if "get_cauchy_point" in saved_k:
-                M.get_cauchy_point = get_cauchy_point
-            if "subspace_minimization" in saved_k:
-                M.subspace_minimization = subspace_minimization
-            M.line_search = line_search
-            M.update_lbfgs_matrices = update_lbfgs_matrices
-            M.make_X_and_G_respect_strong_wolfe = make_wolfe
+            wrappers = {"line_search": line_search, "update_lbfgs_matrices": update_lbfgs_matrices,
+                        "make_X_and_G_respect_strong_wolfe": make_wolfe, "get_cauchy_point": get_cauchy_point,
+                        "subspace_minimization": subspace_minimization}
+            for n, lst in saved_sites.items():
+                for mod, _orig in lst:
+                    setattr(mod, n, wrappers[n])
             SFM.approx_derivative = approx_derivative
             try:
                 yield
             finally:
-                for n, f in list(saved.items()) + list(saved_k.items()):
-                    setattr(M, n, f)
+                for n, lst in saved_sites.items():
+                    for mod, orig in lst:
+                        setattr(mod, n, orig)
                 SFM.approx_derivative = saved_ad
 
     # ------------------------------------------------------------------ one call
